@@ -30,9 +30,12 @@ var (
 	zzPath    string
 	zzCur     *zzInode // inode the path names now (nil: no such file)
 	zzHandles []*zzHandle
-	zzPending []byte // bytes the environment appends during the next sleep
+	zzPending []byte // bytes the environment appends during a later sleep
+	zzPendAt  int    // ... namely the zzPendAt-th sleep from now
 	zzDir     string
 )
+
+var zzDelay = 1 // the environment acts during the zzDelay-th poll sleep (drawn by the harness)
 
 var zzErrNoEnt = errors.New("no such file")
 
@@ -103,6 +106,10 @@ func zzFileClose(f *os.File) error {
 }
 
 func zzSleep(d time.Duration) {
+	if zzPending != nil && zzPendAt > 1 {
+		zzPendAt--
+		return
+	}
 	if zzPending != nil && zzCur != nil {
 		zzCur.data = append(zzCur.data, zzPending...)
 		zzPending = nil
@@ -135,10 +142,11 @@ func zzAppend(b []byte) {
 func zzAppendLater(b []byte) {
 	if zz.Symbolic() {
 		zzPending = b
+		zzPendAt = zzDelay
 		return
 	}
 	go func() {
-		time.Sleep(40 * time.Millisecond)
+		time.Sleep(time.Duration(60*zzDelay) * time.Millisecond)
 		f, _ := os.OpenFile(zzPath, os.O_APPEND|os.O_WRONLY, 0o644)
 		f.Write(b)
 		f.Close()
@@ -176,6 +184,7 @@ func H15Poll() {
 	zzSetup(initial)
 	defer zzDone()
 	reopen, tail := zz.Bool(), zz.Bool()
+	zzDelay = 1 + zz.Choice(3)
 	r, err := NewPolling(zzPath, reopen)
 	zz.Assert(err == nil && r != nil, "cannot follow an existing file")
 	r.PollDelay, r.ReadAttempts = time.Millisecond, 1+zz.Choice(2)
@@ -220,13 +229,26 @@ func H15Poll() {
 				n, err := r.Read(buf)
 				zz.Assert(n == 0 && err == io.EOF, "plain follow does not end the stream after the file was removed")
 			} else {
-				b := zz.Bytes(1 + zz.Choice(2))
-				// the poller tells a new file by its size; proviso of the statement: the new file is still
-				// shorter than what was already delivered when the poller notices it
-				zz.Assume(int64(len(b)) < r.readBytes)
-				zzCreate(b)
-				expect = append(expect, b...)
-				deliver("after re-creation")
+				if zz.Bool() {
+					b := zz.Bytes(1 + zz.Choice(2))
+					// the poller tells a new file by its size; proviso of the statement: the new file is still
+					// shorter than what was already delivered when the poller notices it
+					zz.Assume(int64(len(b)) < r.readBytes)
+					zzCreate(b)
+					expect = append(expect, b...)
+					deliver("after re-creation")
+				} else if r.readBytes > 0 {
+					// re-created empty (shorter than what was delivered), filled only some polls later - possibly
+					// with more than was delivered before
+					zzCreate(nil)
+					b := zz.Bytes(1 + zz.Choice(3))
+					// proviso of the statement: the poller notices the new file while it is still shorter than what was
+					// delivered, i.e. the content arrives only after the first size check (one round of read attempts)
+					zzDelay = r.ReadAttempts + 1 + zz.Choice(2)
+					zzAppendLater(b)
+					expect = append(expect, b...)
+					deliver("after re-creation as an empty file")
+				}
 			}
 		}
 	}
@@ -314,6 +336,20 @@ func H15Notify() {
 		removed = true
 		recreated := zz.Bool()
 		var nb []byte
+		if recreated && reopen && zz.Bool() {
+			// the file comes back only while the reader is already waiting (it has handled the removal with the path missing)
+			nb = zz.Bytes(1 + zz.Choice(2))
+			go func() {
+				if !zz.Symbolic() {
+					time.Sleep(150 * time.Millisecond)
+				}
+				zzCreate(nb)
+				zzSignal(r, "create")
+			}()
+			expect = append(expect, nb...)
+			deliver("after a later re-creation")
+			continue
+		}
 		if recreated {
 			nb = zz.Bytes(1 + zz.Choice(2))
 			zzCreate(nb)
